@@ -39,7 +39,8 @@ void newline_case(Chunk *start)
       {
          return;
       }
-   } while (  prev->IsNot(CT_BRACE_OPEN)
+   } while (  prev->IsNotNullChunk()                   // a 'case' without anything in front of it
+           && prev->IsNot(CT_BRACE_OPEN)
            && prev->IsNot(CT_BRACE_CLOSE)
            && prev->IsNot(CT_SEMICOLON)
            && prev->IsNot(CT_CASE_COLON));
